@@ -70,7 +70,7 @@ def main(ck: Check):
     reqs.append({"fn": "level_fields"}); expect.append((list(LevelStat.model_fields), "fields", reqs[-1]))
     kinds = ["dense", "sparse", "dense", "zero"]
     samples = []
-    for i in range(n_cases):
+    def correspondence_case(i):
         a = rand_block(rng, Stat, kinds[i % 4]); b = rand_block(rng, Stat, kinds[(i // 4) % 3])
         A, B = mk(Stat, a), mk(Stat, b)
         add({"fn": "stat_add", "a": vec(Stat, a), "b": vec(Stat, b)}, list((A + B).model_dump().values()), "Stat.__add__")
@@ -104,6 +104,16 @@ def main(ck: Check):
              "level": str(lvl)}, list(ea.compute_by_level(lvl).model_dump().values()), "ExtendedStat.compute_by_level")
         if i < 2:
             samples.append({"op": "Stat.__add__", "a": {k: str(v) for k, v in a.items() if v}, "b": {k: str(v) for k, v in b.items() if v}})
+
+    raised_in_correspondence = []
+    for i in range(n_cases):
+        n_before = len(reqs)
+        try:
+            correspondence_case(i)
+        except Exception as e:   # an operator of the real code raised on a legal block: a failing input, not a crash
+            del reqs[n_before:]; del expect[n_before:]
+            if len(raised_in_correspondence) < 3:
+                raised_in_correspondence.append(f"{type(e).__name__}: {str(e)[:300]}")
     res = ck.driver(reqs)
     lean.__exit__(None, None, None)
     disagreements = 0
@@ -167,10 +177,37 @@ def main(ck: Check):
                 z = x.model_copy(); z += y
                 if not close(getattr(z, n), 9.75):
                     fail("ActionStat field takes part in +=", field=n)
-    for i in range(n_cases):
+    for msg in raised_in_correspondence:
+        ck.add_failing({"law": "an operator raised on a legal stat block", "error": msg})
+
+    def unchanged(before, objs):
+        return all(o.model_dump() == d for o, d in zip(objs, before))
+
+    def law_case(i):
+        nonlocal laws_checked
         a, b, c = (mk(Stat, rand_block(rng, Stat, kinds[(i + j) % 4])) for j in range(3))
         distinct.add(tuple(sorted(a.short_dict().items())))
         laws_checked += 1
+        # operands are never modified and results are new objects (the block handed in stays the caller's)
+        for x, y in ((a, b), (a, Stat()), (Stat(), a), (a, Stat(STR=0.0))):
+            before = [x.model_dump(), y.model_dump()]
+            r = x + y
+            if r is x or r is y:
+                fail("a+b returns one of its operands (later += on the result rewrites the operand)", a=x, b=y)
+            r += c
+            if not unchanged(before, [x, y]):
+                fail("(a+b) += c changed an operand of the +", a=x, b=y, c=c)
+        before = [a.model_dump(), b.model_dump(), c.model_dump()]
+        sm = Stat.sum([a, b, c])
+        if any(sm is x for x in (a, b, c)):
+            fail("sum returns one of its elements", xs=[a.short_dict(), b.short_dict(), c.short_dict()])
+        sm += c
+        st0 = a.stack(1)
+        if st0 is a:
+            fail("stack returns its operand", a=a)
+        st0 += b
+        if not unchanged(before, [a, b, c]):
+            fail("sum/stack followed by += changed an operand", a=a, b=b, c=c)
         if not blocks_close(a + b, b + a):
             fail("a+b = b+a", a=a, b=b)
         if not blocks_close((a + b) + c, a + (b + c)):
@@ -213,6 +250,23 @@ def main(ck: Check):
         z = ea + ExtendedStat()
         if not (blocks_close(z.stat, ea.stat) and blocks_close(z.action_stat, ea.action_stat) and blocks_close(z.level_stat, ea.level_stat)):
             fail("ExtendedStat a+0 = a", a=ea.model_dump())
+        for e1, e2 in ((ea, eb), (ea, ExtendedStat()), (ea, ExtendedStat(action_stat=eb.action_stat))):
+            before = [e1.model_dump(), e2.model_dump()]
+            r = e1 + e2
+            if any(p is q for p in (r.stat, r.action_stat, r.level_stat)
+                   for q in (e1.stat, e1.action_stat, e1.level_stat, e2.stat, e2.action_stat, e2.level_stat)):
+                fail("ExtendedStat a+b shares a block with an operand", a=e1.model_dump(), b=e2.model_dump())
+            r.stat += c
+            r.action_stat += eb.action_stat
+            if not unchanged(before, [e1, e2]):
+                fail("(ExtendedStat a+b).stat += c changed an operand", a=e1.model_dump(), b=e2.model_dump())
+
+    for i in range(n_cases):
+        try:
+            law_case(i)
+        except Exception as e:
+            ck.add_failing({"law": "an operator raised on a legal stat block", "error": f"{type(e).__name__}: {str(e)[:300]}",
+                            "case": i})
 
     ck.coverage.update({
         "evaluations": len(reqs) + laws_checked,
